@@ -540,6 +540,7 @@ def handle (op : String) (args res : List String) : Option String :=
   else if op == "c04idx" then handleIdx args res
   else if op == "c04cross" then handleCross args res
   else if op == "c04cpq" then handleCpq args res
+  else if op == "c04cpqrm" then handleCpq args.dropLast res   -- same judge; the last argument only describes the add / remove history
   else none
 
 end Oracle.C04
